@@ -32,6 +32,10 @@ def ill_edits(cols, engine_kind):
                   lambda ch, o: ("calc", ch, "e", ("add", ("rneg", A, other), ("lit", "$k9")), None)))
         E.append(("calc engine-specific function of the other engine (nested)", ("EngineError",),
                   lambda ch, o: ("calc", ch, "e", ("neg", ("efn", A, other)), None)))
+        E.append(("sort term unsupported, equal to the existing sort's term but for the engine restriction", ("EngineError",),
+                  lambda ch, o: ("sort", ("sort", ch, ((("neg", A), True),)), ((("rneg", A, other), True),), None)))
+        E.append(("sort terms unsupported, equal to a prefix of the existing sort's terms but for the engine restriction", ("EngineError",),
+                  lambda ch, o: ("sort", ("sort", ch, ((("neg", A), False), (A, True))), ((("rneg", A, other), False),), None)))
         E.append(("sort term unsupported (nested)", ("EngineError",),
                   lambda ch, o: ("sort", ch, ((("rneg", ("add", A, ("rneg", A, other)), "both"), True),), None)))
         E.append(("selection unsupported (nested under NOT / comparison)", ("EngineError",),
